@@ -1,7 +1,86 @@
 import GoawkModel.Basic
-/-! Line-protocol handler for property C13: one request line (already split into words, without the leading `c13`) → one answer line. -/
-namespace GoawkModel.Drv.C13
+import GoawkModel.C13
+/-! Line-protocol handler for property C13.
 
-def handle (_args : List String) : String := "unimplemented"
+`run <buffered 0|1> <failAt | -> <fs> <op>*`
+* `<fs>`: `name=content` pairs (hex), comma separated, `.` for none
+* ops: `p:<c>` `gt:<n>:<c>` `app:<n>:<c>` `pipe:<n>:<c>` `close:<n>` `ff:<n>` `ffa` `sys:<n>` `gf:<n>` `exit:<k>` `fail`
+* commands by (symbolic) name: `sink<k>…` swallows its input, exit status k; `echo…` copies its input to stdout at EOF;
+  system: `snap_<file>` looks at a file, `say_<tok>` prints `<tok>\n`, `rc<k>` exits with k
+answer: `ok <ret>* ; <outcome> ; <out> ; <flush,…> ; <name=content,…> ; <cmd:input:status,…>` -/
+namespace GoawkModel.Drv.C13
+open GoawkModel GoawkModel.C13
+
+def isPrefix : Bytes → Bytes → Bool
+  | [], _ => true
+  | _ :: _, [] => false
+  | a :: p, b :: n => a == b && isPrefix p n
+
+def digitAt (n : Bytes) (i : Nat) : Nat := ((n.getD i 48).toNat - 48) % 10
+
+def beh : Beh where
+  pipe := fun n input =>
+    if isPrefix (ofString "sink") n then ([], digitAt n 4)
+    else if isPrefix (ofString "echo") n then (input, 0)
+    else ([], 0)
+  sys := fun c fs =>
+    if isPrefix (ofString "snap_") c then (content fs (c.drop 5), [], 0)
+    else if isPrefix (ofString "say_") c then ([], c.drop 4 ++ [10], 0)
+    else if isPrefix (ofString "rc") c then ([], [], digitAt c 2)
+    else ([], [], 0)
+
+def parsePair (s : String) : Option (Name × Bytes) :=
+  match s.splitOn "=" with
+  | [a, b] => do pure (← fromHex a, ← fromHex b)
+  | _ => none
+
+def parseFs (s : String) : Option (List (Name × Bytes)) :=
+  if s = "." then some [] else (s.splitOn ",").mapM parsePair
+
+def parseOp (s : String) : Option Op :=
+  match s.splitOn ":" with
+  | ["p", c] => do pure (.print (← fromHex c))
+  | ["gt", n, c] => do pure (.printTo .gt (← fromHex n) (← fromHex c))
+  | ["app", n, c] => do pure (.printTo .app (← fromHex n) (← fromHex c))
+  | ["pipe", n, c] => do pure (.printTo .pipe (← fromHex n) (← fromHex c))
+  | ["close", n] => do pure (.close (← fromHex n))
+  | ["ff", n] => do pure (.fflush (← fromHex n))
+  | ["ffa"] => some .fflushAll
+  | ["sys", n] => do pure (.system (← fromHex n))
+  | ["gf", n] => do pure (.getlineFile (← fromHex n))
+  | ["exit", k] => do pure (.exit (← k.toNat?))
+  | ["fail"] => some .fail
+  | _ => none
+
+def showErr : Err → String
+  | .writeToReader => "writeToReader" | .readFromWriter => "readFromWriter" | .stdoutWrite => "stdoutWrite" | .divZero => "divZero"
+
+def showRet : Ret → String
+  | .none => "-"
+  | .num v => "n" ++ toString v
+  | .line r l => "l" ++ toString r ++ ":" ++ toHex l
+  | .err e => "e" ++ showErr e
+  | .exit c => "x" ++ toString c
+
+def showOutcome : Outcome → String
+  | .ok st => "ok" ++ toString st
+  | .error e => "error:" ++ showErr e
+
+def commaOr (l : List String) : String := if l.isEmpty then "." else String.intercalate "," l
+
+def handle (args : List String) : String :=
+  match args with
+  | "run" :: buffered :: failAt :: fs :: ops =>
+    match parseFs fs, ops.mapM parseOp with
+    | some fs, some ops =>
+      let fa : Option Nat := if failAt = "-" then none else failAt.toNat?
+      let r := run beh (St.init (buffered = "1") fa fs) ops
+      let s := r.2.2
+      String.intercalate " " ["ok", commaOr (r.1.map showRet), showOutcome r.2.1, toHex s.out, commaOr (s.flushes.map toHex),
+        commaOr (s.fs.map fun p => toHex p.1 ++ "=" ++ toHex p.2),
+        commaOr (s.procs.map fun p => toHex p.1 ++ ":" ++ toHex p.2.1 ++ ":" ++ toString p.2.2),
+        toHex s.outLog]
+    | _, _ => "bad-request"
+  | _ => "bad-request"
 
 end GoawkModel.Drv.C13
